@@ -19,6 +19,8 @@ pub enum Error {
     OutOfI64RangeNumber(KNumber),
     #[error("number out of u8 range {0}")]
     OutOfU8RangeNumber(KNumber),
+    #[error("number out of {1} range {0}")]
+    OutOfRangeNumber(KNumber, &'static str),
     #[error("i128 out of i64 range {0}")]
     OutOfRangeI128(i128),
     #[error("u64 out of i64 range {0}")]
